@@ -1,12 +1,20 @@
-import PPLV.Lattice.ProofsDecide
-import Mathlib.Data.Set.Basic
+import PPLV.Lattice.ProofsQueries
+import PPLV.Lattice.ProofsFreq
+import Mathlib.Data.Set.Image
 
 /-!
 # C05 — grids: congruence and generator descriptions agree, operations are exact
 
-Property statements only.  `Gen.sem G : Set Pt` is the point set of a generator-form grid
-(`Pt = ℕ → ℚ`, zero beyond the space dimension), `Cg.sem c` the point set of a congruence
-`⟨a,x⟩ + b ≡ 0 (mod f)`, `CgSys.sem n C` that of a congruence system in dimension `n`.
+Property statements only (helper lemmas are in `PPLV/Lattice/Proofs*.lean`).
+
+* `gridSet G : Set Pt` — the point set of a generator-form grid `G` (`Pt = ℕ → ℚ`; the points of an
+  `n`-dimensional grid vanish beyond coordinate `n`): the point, closed under integer multiples of the
+  parameters and rational multiples of the lines (`Gen.sem`, inductive).
+* `cgSet c` — the point set of a congruence `⟨a,x⟩ + b ≡ 0 (mod f)` (`f = 0`: equality);
+  `cgSysSet n C` — that of a congruence system in dimension `n`.
+
+The driver `pplv_grid` judges every observation of the real library with the procedures whose
+correctness is stated here.
 -/
 namespace C05
 open PPLV.Lattice
@@ -18,30 +26,41 @@ def cgSet (c : Cg) : Set Pt := {x | c.sem x}
 /-- point set of a congruence system in dimension `n` -/
 def cgSysSet (n : Nat) (C : List Cg) : Set Pt := {x | CgSys.sem n C x}
 
+/-! ## the two descriptions -/
+
 /-- the verified core: intersecting a generator-form grid with one congruence -/
 theorem intersectCon_spec (G : GridGens) (c : Cg) :
     gridSet (intersectCon G c) = gridSet G ∩ cgSet c := by
   ext x; exact intersectCon_sem G c x
 
-example : Gen.sem (intersectCon (univ 1) ⟨[1], 0, 2⟩) (Vec.toFun [4]) := by
-  rw [← memB_iff]; decide +kernel
+example : Vec.toFun [4] ∈ gridSet (intersectCon (univ 1) ⟨[1], 0, 2⟩) := by
+  show Gen.sem _ _; rw [← memB_iff]; decide +kernel
+example : Vec.toFun [3] ∉ gridSet (intersectCon (univ 1) ⟨[1], 0, 2⟩) := by
+  show ¬ Gen.sem _ _; rw [← memB_iff]; decide +kernel
+
+/-- adding a list of congruences -/
+theorem intersectCons_spec (G : GridGens) (C : List Cg) :
+    gridSet (intersectCons G C) = gridSet G ∩ {x | ∀ c ∈ C, c.sem x} := by
+  ext x; exact intersectCons_sem G C x
 
 /-- conversion of a congruence system (fold from the universe) -/
-theorem consToGens_spec (n : Nat) (C : List Cg) :
-    gridSet (consToGens n C) = cgSysSet n C := by
+theorem consToGens_spec (n : Nat) (C : List Cg) : gridSet (consToGens n C) = cgSysSet n C := by
   ext x; exact consToGens_sem n C x
+
+example : consToGens 1 [⟨[2], 0, 1⟩, ⟨[3], 0, 1⟩] = .gens { pt := [0], params := [[1]], lines := [] } := by
+  decide +kernel
+/-- an inconsistent system: even and odd -/
+example : consToGens 1 [⟨[1], 0, 2⟩, ⟨[1], 1, 2⟩] = .empty := by decide +kernel
 
 /-- membership decider -/
 theorem memB_iff (G : GridGens) (v : Vec) : memB G v = true ↔ v.toFun ∈ gridSet G :=
   PPLV.Lattice.memB_iff G v
 
 /-- inclusion decider: sound and complete -/
-theorem subset_iff (G H : GridGens) :
-    subsetB G H = true ↔ gridSet G ⊆ gridSet H := subsetB_iff G H
+theorem subset_iff (G H : GridGens) : subsetB G H = true ↔ gridSet G ⊆ gridSet H := subsetB_iff G H
 
-/-- equivalence decider: sound and complete -/
-theorem equiv_iff (G H : GridGens) :
-    equivB G H = true ↔ gridSet G = gridSet H := by
+/-- equivalence decider: sound **and complete** -/
+theorem equiv_iff (G H : GridGens) : equivB G H = true ↔ gridSet G = gridSet H := by
   rw [equivB_iff]
   constructor
   · intro h; ext x; exact h x
@@ -51,8 +70,243 @@ example : equivB (consToGens 2 [⟨[1,0], -1, 2⟩, ⟨[1,1], 0, 3⟩]) (consToG
   decide +kernel
 example : equivB (consToGens 1 [⟨[1], 0, 2⟩]) (consToGens 1 [⟨[1], 0, 4⟩]) = false := by decide +kernel
 
-/-- `G ⊆ sem c` decided on the generators -/
-theorem satCg_iff (G : GridGens) (c : Cg) :
-    satCgB G c = true ↔ gridSet G ⊆ cgSet c := satCgB_iff G c
+/-- `G ⊆ sem c`, decided on the generators -/
+theorem satCg_iff (G : GridGens) (c : Cg) : satCgB G c = true ↔ gridSet G ⊆ cgSet c := satCgB_iff G c
+
+/-- the line theorem behind completeness: a rational line of directions contained in
+    `ℤ-span(P) + ℚ-span(L)` lies in `ℚ-span(L)` (finitely generated subgroups of ℚⁿ have no divisible element) -/
+theorem lines_are_span (P L : List Pt) (l : Pt) (h : ∀ c : ℚ, Abs.Dir P L (c • l)) : Abs.Dir [] L l :=
+  line_theorem _ L P l rfl h
+
+/-- a certified congruence description of a generator-form grid (proposal by the dual lattice,
+    accepted only by `equivB`): when it succeeds it describes the same set -/
+theorem certCons_spec (n : Nat) (G : GridGens) (C : List Cg) (h : certCons n G = some C) :
+    gridSet G = cgSysSet n C := by
+  ext x; exact certCons_sem n G C h x
+
+example : (certCons 2 (consToGens 2 [⟨[1,0], -1, 2⟩, ⟨[1,1], 0, 3⟩])).isSome = true := by decide +kernel
+
+/-! ## operations -/
+
+/-- intersection (certifying: `none` only if the congruence proposal is rejected) -/
+theorem inter_spec (G H K : GridGens) (h : inter G H = some K) : gridSet K = gridSet G ∩ gridSet H := by
+  ext x; exact inter_sem G H K h x
+
+example : (inter (consToGens 1 [⟨[1], 0, 2⟩]) (consToGens 1 [⟨[1], 0, 3⟩])).isSome = true := by decide +kernel
+
+/-- join: the least grid containing both arguments -/
+theorem join_least (G H : GridGens) :
+    gridSet G ⊆ gridSet (join G H) ∧ gridSet H ⊆ gridSet (join G H) ∧
+    ∀ K : GridGens, gridSet G ⊆ gridSet K → gridSet H ⊆ gridSet K → gridSet (join G H) ⊆ gridSet K :=
+  ⟨fun x h => join_left G H x h, fun x h => join_right G H x h,
+   fun K hG hH x h => PPLV.Lattice.join_least G H K hG hH x h⟩
+
+/-- `{0} ⊔ {1/2}` is `(1/2)ℤ` -/
+example : equivB (join (consToGens 1 [⟨[1], 0, 0⟩]) (consToGens 1 [⟨[2], -1, 0⟩])) (consToGens 1 [⟨[2], 0, 1⟩]) = true := by
+  decide +kernel
+
+/-- adding a line / a parameter / a point (a point: join with the singleton) -/
+theorem addLine_spec (G : GridGens) (l : Vec) :
+    gridSet (addLine G l) = {y | ∃ x ∈ gridSet G, ∃ c : ℚ, y = x + c • l.toFun} := by
+  ext y; simp only [gridSet, Set.mem_ofPred_eq, addLine_sem]
+  constructor
+  · rintro ⟨x, c, hx, rfl⟩; exact ⟨x, hx, c, rfl⟩
+  · rintro ⟨x, hx, c, rfl⟩; exact ⟨x, c, hx, rfl⟩
+
+theorem addParam_spec (G : GridGens) (q : Vec) :
+    gridSet (addParam G q) = {y | ∃ x ∈ gridSet G, ∃ k : ℤ, y = x + (k : ℚ) • q.toFun} := by
+  ext y; simp only [gridSet, Set.mem_ofPred_eq, addParam_sem]
+  constructor
+  · rintro ⟨x, k, hx, rfl⟩; exact ⟨x, hx, k, rfl⟩
+  · rintro ⟨x, hx, k, rfl⟩; exact ⟨x, k, hx, rfl⟩
+
+theorem addPoint_spec (G : GridGens) (p : Vec) :
+    gridSet (addPoint G p) = gridSet (join G (.gens { pt := p, params := [], lines := [] })) := by
+  ext x; exact addPoint_eq_join G p x
+
+/-- affine image under the documented single-update map `x ↦ x[v := (⟨e,x⟩ + b)/d]` -/
+theorem affineImage_spec (G : GridGens) (v : Nat) (e : Vec) (b d : ℚ) :
+    gridSet (affineImage G v e b d) = affMap v e b d '' gridSet G := by
+  ext y; simp only [gridSet, Set.mem_ofPred_eq, Set.mem_image, affineImage_sem]
+  constructor
+  · rintro ⟨x, hx, rfl⟩; exact ⟨x, hx, rfl⟩
+  · rintro ⟨x, hx, rfl⟩; exact ⟨x, hx, rfl⟩
+
+/-- the documentation's example: points (0,0),(0,3),(3,0), `x₀ := 3x₀ + 2x₁ + 1` gives `{x ≡₃ 1, x + y ≡₉ 1}` -/
+example : equivB (affineImage (.gens { pt := [0,0], params := [[0,3],[3,0]], lines := [] }) 0 [3,2] 1 1)
+    (consToGens 2 [⟨[1,0], -1, 3⟩, ⟨[1,1], -1, 9⟩]) = true := by decide +kernel
+
+/-- affine preimage (`d ≠ 0`; the library rejects `d = 0`) -/
+theorem affinePreimage_spec (G : GridGens) (v : Nat) (e : Vec) (b d : ℚ) (hd : d ≠ 0) :
+    gridSet (affinePreimage G v e b d) = affMap v e b d ⁻¹' gridSet G := by
+  ext y; exact affinePreimage_sem G v e b d hd y
+
+/-- non-invertible case of the documentation: `x₀ := x₁` on the grid `3ℤ·(1,1)` gives all points with `y ∈ 3ℤ` -/
+example : equivB (affinePreimage (.gens { pt := [0,0], params := [[3,3]], lines := [] }) 0 [0,1] 0 1)
+    (consToGens 2 [⟨[0,1], 0, 3⟩]) = true := by decide +kernel
+
+/-- image under an affine map given on list vectors by `M`, on valuations by the linear map `φ`
+    (covers remove / map / select of space dimensions, see `selectCoords_represents`) -/
+theorem mapG_spec (M : Vec → Vec) (φ : Pt →ₗ[ℚ] Pt) (hM : Represents M φ) (t : Vec) (G : GridGens) :
+    gridSet (mapG M t G) = (fun x => φ x + t.toFun) '' gridSet G := by
+  ext y; simp only [gridSet, Set.mem_ofPred_eq, Set.mem_image, mapG_sem M φ hM]
+  constructor
+  · rintro ⟨x, hx, rfl⟩; exact ⟨x, hx, rfl⟩
+  · rintro ⟨x, hx, rfl⟩; exact ⟨x, hx, rfl⟩
+
+/-- time-elapse: the least grid containing `{p + μ q | p ∈ G, q ∈ H, μ ∈ ℤ}` -/
+theorem timeElapse_least (G H : GridGens) :
+    (∀ p ∈ gridSet G, ∀ q ∈ gridSet H, ∀ μ : ℤ, p + (μ : ℚ) • q ∈ gridSet (timeElapse G H)) ∧
+    ∀ K : GridGens, (∀ p ∈ gridSet G, ∀ q ∈ gridSet H, ∀ μ : ℤ, p + (μ : ℚ) • q ∈ gridSet K) →
+      gridSet (timeElapse G H) ⊆ gridSet K :=
+  ⟨fun p hp q hq μ => timeElapse_contains G H p q μ hp hq,
+   fun K hK x hx => PPLV.Lattice.timeElapse_least G H K (fun p q μ hp hq => hK p hp q hq μ) x hx⟩
+
+/-! ## queries -/
+
+theorem isEmpty_iff (G : GridGens) : G.isEmpty = true ↔ gridSet G = ∅ := by
+  rw [← Bool.not_eq_false, isEmpty_false_iff]
+  constructor
+  · intro h; ext x; simp only [gridSet, Set.mem_ofPred_eq, Set.mem_empty_iff_false, iff_false]
+    intro hx; exact h ⟨x, hx⟩
+  · rintro h ⟨x, hx⟩
+    have : x ∈ gridSet G := hx
+    rw [h] at this; exact this
+
+theorem isUniverse_spec (n : Nat) (G : GridGens) : isUniverse n G = true ↔ gridSet G = {x | Supp n x} := by
+  rw [isUniverse_iff]
+  constructor
+  · intro h; ext x; exact h x
+  · intro h x; exact Set.ext_iff.mp h x
+
+/-- relation with a congruence (non-empty grid): disjoint / strictly intersects / included / saturates -/
+theorem relCg_spec (G : GridGens) (c : Cg) (hne : (gridSet G).Nonempty) :
+    ((relCg G c).1 = true ↔ gridSet G ∩ cgSet c = ∅) ∧
+    ((relCg G c).2.1 = true ↔ (gridSet G ∩ cgSet c).Nonempty ∧ ¬ gridSet G ⊆ cgSet c) ∧
+    ((relCg G c).2.2.1 = true ↔ gridSet G ⊆ cgSet c) ∧
+    ((relCg G c).2.2.2 = true ↔ gridSet G ⊆ cgSet c ∧ c.f = 0) := by
+  obtain ⟨h1, h2, h3, h4⟩ := PPLV.Lattice.relCg_spec G c hne
+  refine ⟨?_, ?_, h3, h4⟩
+  · rw [h1]
+    constructor
+    · intro h; ext x; simp only [Set.mem_inter_iff, Set.mem_empty_iff_false, iff_false]
+      rintro ⟨hx, hc⟩; exact h x hx hc
+    · intro h x hx hc
+      have : x ∈ gridSet G ∩ cgSet c := ⟨hx, hc⟩
+      rw [h] at this; exact this
+  · rw [h2]
+    constructor
+    · rintro ⟨⟨x, hx, hc⟩, ⟨y, hy, hnc⟩⟩
+      exact ⟨⟨x, hx, hc⟩, fun hsub => hnc (hsub hy)⟩
+    · rintro ⟨⟨x, hx, hc⟩, hns⟩
+      refine ⟨⟨x, hx, hc⟩, ?_⟩
+      by_contra hcon
+      apply hns; intro y hy
+      by_contra hnc; exact hcon ⟨y, hy, hnc⟩
+
+/-- the witness of the library's defect (KF-C05-2): `{-1/3}` and `A ≡ 2 (mod 1)` are disjoint -/
+example : relCg (.gens { pt := [-1/3], params := [], lines := [] }) ⟨[1], -2, 1⟩ = (true, false, false, false) := by
+  decide +kernel
+
+/-- `subsumes` for a point, a parameter, a line -/
+theorem relGen_spec (G : GridGens) (v : Vec) :
+    (relGen G 2 v = true ↔ v.toFun ∈ gridSet G) ∧
+    (relGen G 1 v = true ↔ (gridSet G).Nonempty ∧ ∀ x ∈ gridSet G, ∀ k : ℤ, x + (k : ℚ) • v.toFun ∈ gridSet G) ∧
+    (relGen G 0 v = true ↔ (gridSet G).Nonempty ∧ ∀ x ∈ gridSet G, ∀ c : ℚ, x + c • v.toFun ∈ gridSet G) := by
+  refine ⟨relGen_point G v, ?_, ?_⟩
+  · rw [relGen_param]
+    constructor
+    · rintro ⟨h1, h2⟩; exact ⟨h1, fun x hx k => h2 x k hx⟩
+    · rintro ⟨h1, h2⟩; exact ⟨h1, fun x k hx => h2 x hx k⟩
+  · rw [relGen_line]
+    constructor
+    · rintro ⟨h1, h2⟩; exact ⟨h1, fun x hx c => h2 x c hx⟩
+    · rintro ⟨h1, h2⟩; exact ⟨h1, fun x c hx => h2 x hx c⟩
+
+/-- `constrains(v)` is false exactly for non-empty grids invariant under the line `e_v` -/
+theorem constrains_spec (G : GridGens) (v : Nat) :
+    constrains G v = false ↔ (gridSet G).Nonempty ∧ ∀ x ∈ gridSet G, ∀ c : ℚ, x + c • (unit v).toFun ∈ gridSet G := by
+  rw [constrains_iff]
+  constructor
+  · rintro ⟨h1, h2⟩; exact ⟨h1, fun x hx c => h2 x c hx⟩
+  · rintro ⟨h1, h2⟩; exact ⟨h1, fun x c hx => h2 x hx c⟩
+
+/-- the witness of KF-C05-8: point 0 and line `A` in dimension 2 do not constrain `A` -/
+example : constrains (.gens { pt := [0,0], params := [], lines := [[1,0]] }) 0 = false := by decide +kernel
+
+/-- discrete: the grid contains no rational line -/
+theorem isDiscrete_spec (G : GridGens) :
+    isDiscrete G = true ↔ ¬ ∃ (x d : Pt), d ≠ 0 ∧ ∀ c : ℚ, x + c • d ∈ gridSet G := isDiscrete_iff G
+
+/-- bounded: at most one point -/
+theorem isBounded_spec (G : GridGens) : isBounded G = true ↔ (gridSet G).Subsingleton := by
+  rw [isBounded_iff]
+  constructor
+  · intro h x hx y hy; exact h x y hx hy
+  · intro h x y hx hy; exact h hx hy
+
+theorem containsIntegerPoint_spec (n : Nat) (G : GridGens) :
+    containsIntegerPoint n G = true ↔ ∃ x ∈ gridSet G, ∀ i < n, ∃ t : ℤ, x i = t := by
+  rw [containsIntegerPoint_iff]
+  constructor
+  · rintro ⟨x, hx, h⟩; exact ⟨x, hx, h⟩
+  · rintro ⟨x, hx, h⟩; exact ⟨x, hx, h⟩
+
+/-- `bounds_from_above/below`, `maximize/minimize`: the expression is constant on the grid -/
+theorem boundsExpr_spec (G : GridGens) (e : Vec) :
+    boundsExpr G e = true ↔ ∀ x ∈ gridSet G, ∀ y ∈ gridSet G, dotF e x = dotF e y := by
+  rw [boundsExpr_iff]
+  constructor
+  · intro h x hx y hy; exact h x y hx hy
+  · intro h x y hx hy; exact h x hx y hy
+
+/-! ## frequency -/
+
+/-- the values of `⟨e,x⟩ + b` on the grid -/
+def values (G : GridGens) (e : Vec) (b : ℚ) : Set ℚ := {r | ∃ x ∈ gridSet G, r = dotF e x + b}
+
+/-- `frequency` is undefined exactly when the grid is empty or the expression takes every rational value -/
+theorem frequency_undefined (G : GridGens) (e : Vec) (b : ℚ) :
+    frequency G e b = none ↔ gridSet G = ∅ ∨ values G e b = Set.univ := by
+  rw [frequency_none_iff]
+  constructor
+  · rintro (h | h)
+    · left; ext x; simp only [gridSet, Set.mem_ofPred_eq, Set.mem_empty_iff_false, iff_false]
+      intro hx; exact h ⟨x, hx⟩
+    · right; ext r; simp only [Set.mem_univ, iff_true]
+      obtain ⟨x, hx, hr⟩ := h r; exact ⟨x, hx, hr⟩
+  · rintro (h | h)
+    · left; rintro ⟨x, hx⟩
+      have : x ∈ gridSet G := hx
+      rw [h] at this; exact this
+    · right; intro r
+      have : r ∈ values G e b := by rw [h]; trivial
+      obtain ⟨x, hx, hr⟩ := this; exact ⟨x, hx, hr⟩
+
+/-- `frequency G e b = some (f, vals)`: `f ≥ 0` is the greatest modulus (all values are congruent modulo `f`,
+    and `f` itself is a difference of two values), `vals` are exactly the values of least magnitude -/
+theorem frequency_spec (G : GridGens) (e : Vec) (b f : ℚ) (vals : List ℚ) (h : frequency G e b = some (f, vals)) :
+    0 ≤ f ∧
+    (∀ r ∈ values G e b, ∀ r' ∈ values G e b, ∃ t : ℤ, r - r' = t * f) ∧
+    (∃ r ∈ values G e b, ∃ r' ∈ values G e b, r - r' = f) ∧
+    (∀ v, v ∈ vals ↔ v ∈ values G e b ∧ ∀ r ∈ values G e b, |v| ≤ |r|) := by
+  obtain ⟨h0, h1, ⟨r, r', hr, hr', hd⟩, h3⟩ := frequency_some G e b f vals h
+  have conv : ∀ r, r ∈ values G e b ↔ IsValue G e b r := by
+    intro r; constructor
+    · rintro ⟨x, hx, hr⟩; exact ⟨x, hx, hr⟩
+    · rintro ⟨x, hx, hr⟩; exact ⟨x, hx, hr⟩
+  refine ⟨h0, ?_, ⟨r, (conv r).mpr hr, r', (conv r').mpr hr', hd⟩, ?_⟩
+  · intro r hr r' hr'; exact h1 r r' ((conv r).mp hr) ((conv r').mp hr')
+  · intro v; rw [h3 v, conv v]
+    constructor
+    · rintro ⟨hv, hmin⟩; exact ⟨hv, fun r hr => hmin r ((conv r).mp hr)⟩
+    · rintro ⟨hv, hmin⟩; exact ⟨hv, fun r hr => hmin r ((conv r).mpr hr)⟩
+
+/-- `A ≡ 5 (mod 7)`: frequency of `A` is 7, the value closest to zero is −2 (the library reports 5, KF-C05-12) -/
+example : frequency (consToGens 1 [⟨[1], -5, 7⟩]) [1] 0 = some (7, [-2]) := by decide +kernel
+/-- a tie: `A ≡ 1 (mod 2)`: both 1 and −1 -/
+example : frequency (consToGens 1 [⟨[1], -1, 2⟩]) [1] 0 = some (2, [1, -1]) := by decide +kernel
+/-- a line moves the expression: undefined -/
+example : frequency (univ 1) [1] 0 = none := by decide +kernel
 
 end C05
